@@ -35,7 +35,9 @@ PeerCertsVisible(p) == CallTransmitted(p) /\ p.client_auth # "none" /\ ValidIden
 \* p.second_alpn (optional field, extra rows): after the connection of the table point, the same Endpoint connects again, to a server
 \* that shares the first one's session store (the handshake may be resumed) and negotiates second_alpn.  The h2 requirement applies
 \* to every connection on its own: resumption abbreviates the handshake, it does not carry the old connection's ALPN over.
-SecondTransmitted(p) == CallTransmitted(p) /\ (p.second_alpn = "h2" \/ p.assume_http2) /\ p.second_alpn # "http/1.1"
+\* p.second_client_auth (optional) = "required": the second server demands a certificate of its client CA - whatever the first did
+SecondTransmitted(p) == /\ CallTransmitted(p) /\ (p.second_alpn = "h2" \/ p.assume_http2) /\ p.second_alpn # "http/1.1"
+                        /\ (("second_client_auth" \in DOMAIN p /\ p.second_client_auth = "required") => ValidIdentity(p))
 \* o2 = [call_ok, handler_runs (of the second connection), first_bytes]
 Clauses2(p, o2) ==
   << <<"C15.CallOnlyOverAuthenticatedH2", o2.call_ok => SecondTransmitted(p)>>,
